@@ -443,6 +443,7 @@ def boxcount(run, fx):
             from .cfg import int_type as _it
             refs = [x for x in nodes if x['k'] == 'DeclRefExpr' and x.get('vid') is not None and _it((x.get('t') or '').replace('const ', '')) and x.get('pi') is None
                     and x.get('dk') == 'Var' and not (x.get('d') or '').startswith('graphite2::')]
+            refs = [x for x in refs if x.get('vid') not in ctor.const_init] or refs           # not the const local the size was computed into first
             if refs:
                 pool = (e, refs[0]['vid'], ctor.render(refs[0]))
     calls = calls_in(ctor, 'graphite2::GlyphCache::Loader::read_glyph')
